@@ -830,8 +830,21 @@ func runCaseAttempt(g *dag.Graph, ops []op, seed uint64, attempt int) {
 			for k := range live {
 				expKnown[k] = true
 			}
+			// graph.Exists of the rebuilt graph also holds for a layer/config that a live manifest
+			// lists although its content is not stored (IndexAll records leaves by reference)
+			listedAbsentLeaf := func(k int) bool {
+				if tr.stored[k] || g.Nodes[k].IsManifest() {
+					return false
+				}
+				for _, p := range g.Preds(k) {
+					if live[p] {
+						return true
+					}
+				}
+				return false
+			}
 			for k := range expDig {
-				if !tr.tagged(k) && !kept[k] && !(keepLiveDigests && live[k]) {
+				if !tr.tagged(k) && !kept[k] && !(keepLiveDigests && (live[k] || listedAbsentLeaf(k))) {
 					delete(expDig, k)
 				}
 			}
